@@ -219,5 +219,9 @@ func C05(c *core.Ctx) {
 	ruleSizedFamilies(c, []string{"required"}, 300)
 	// the numeric keywords reach the generator as written (a bound of 0 is a bound)
 	ruleFidelity(c, "minimum", "maximum", "multipleOf", "exclusiveMinimum", "exclusiveMaximum")
+	// a check only runs on a field the decoder fills: the field's identifier is exported for every name and capitalization (A-IDENT);
+	// and it is the check of THIS schema: a same-named schema is bound to the declaration of the equal one (A-DEDUP)
+	ruleIdent(c)
+	ruleDedup(c)
 	c.Floor("families", c.Counts["members"], 300, "family members")
 }
